@@ -12,6 +12,8 @@ Statements (all paths root-relative):
   ["always"] ["ext", name] ["failflag", name, code] ["fail", code] ["work", k] ["err", file]
   ["out", "stdout"|"file"] ["stamp"] ["stampif", flag]   (redo-stamp only while $RV_CTL/stampflag.<flag> exists)
   ["stampsrc", path]         redo-stamp unless source `path` currently holds its variant 1
+  ["usermod"]                while the script runs, "the user" replaces the target file by hand (iff $RV_CTL/usermod.<flag>
+                             exists, flag = target with / -> _); content "concurrent <target>\n", fresh inode
 """
 import hashlib
 import os
@@ -114,6 +116,8 @@ def render_do(dofile, spec):
             L.append("v_stampif %s" % shq(st[1]))
         elif k == "stampsrc":
             L.append("v_stampsrc %s" % shq(rel(st[1], dodir)))
+        elif k == "usermod":
+            L.append("v_usermod")
         elif k == "sleep":
             L.append("sleep %s" % ("%.3f" % (st[1] / 1000.0)))
         elif k == "raw":
